@@ -225,6 +225,8 @@ def validate(ctx, traces, prefixes, label, discr=None):
                                        for p in tr["ev"][max(0, v["reached"] - 6):v["reached"]]]))
         else:
             foreign[tag] = foreign.get(tag, 0) + 1
+    if ctx.thorough or os.environ.get("VERIF_SELFTEST"):
+        binding_selftest(ctx, [byid[v["id"]] for v in res if v["reached"] == v["n"]])
     if foreign:
         ctx.extra["rejections_owned_by_other_properties"] = foreign
         ctx.log("sessions rejected by clauses of other properties (reported by their checks):", foreign)
@@ -342,3 +344,50 @@ def traffic_stats(ctx, traces):
         ctx.distinct(t["id"] + str(t["cfg"]["argv"]) + str(len(t["ev"])))
     ctx.extra.update(bursts_accepted=nb, datagrams_delivered=nd, nope_indications=nn, stale_reports=ns)
     return nd
+
+
+def binding_selftest(ctx, accepted):
+    """Demonstrate the binding: corrupt one recorded field / drop one event of an
+    accepted session and require FakeTrxTrace to reject it at that event."""
+    import copy
+    cands = []
+    for tr in accepted[:40]:
+        for i, e in enumerate(tr["ev"]):
+            if e["e"] == "cmd" and e.get("outs") and len(tr["ev"]) > i + 3:
+                t = copy.deepcopy(tr)
+                t["id"] = "selftest-reply"
+                t["ev"][i]["outs"][0]["raw"][-2] ^= 1
+                cands.append((t, i))
+                t = copy.deepcopy(tr)
+                t["id"] = "selftest-state"
+                t["ev"][i]["proj"]["trx"][0]["ta"] += 1
+                cands.append((t, i))
+                break
+        if cands:
+            break
+    for tr in accepted[:40]:
+        ticks = [i for i, e in enumerate(tr["ev"]) if e["e"] == "tick" and any(o["kind"] == "data" for o in e["outs"])]
+        if ticks:
+            t = copy.deepcopy(tr)
+            t["id"] = "selftest-dropped-datagram"
+            i = ticks[0]
+            t["ev"][i]["outs"] = [o for o in t["ev"][i]["outs"] if o["kind"] != "data"]
+            cands.append((t, i))
+            t = copy.deepcopy(tr)
+            t["id"] = "selftest-dropped-event"
+            del t["ev"][i]
+            cands.append((t, i))
+            break
+    if not cands:
+        return
+    res, stats = tlc.validate_traces("FakeTrxTrace.tla", "FakeTrxTrace.cfg", [c[0] for c in cands], scratch=ctx.scratch,
+                                     chunk="balance", parallel=2, timeout=900)
+    out = {}
+    rid = {v["id"]: v for v in res}
+    for (t, i) in cands:
+        v = rid[t["id"]]
+        out[t["id"]] = dict(rejected_at=v["reached"] + 1, corrupted_event=i + 1, tag=v["tag"])
+        if v["reached"] == v["n"] or v["reached"] > i + 1:
+            raise tlc.MachineryError("binding self-test: corrupted session %s was not rejected at the corrupted event "
+                                     "(reached %d of %d, corrupted %d)" % (t["id"], v["reached"], v["n"], i + 1))
+    ctx.extra["binding_selftest"] = out
